@@ -52,8 +52,42 @@ def overflow(ctx, rng):
         ctx.case("overflow", key=(device_id, n), nontrivial=False, sample={"id": device_id, "len": n, "impl": out[:40]})
 
 
+def long_run(ctx, rng, n):
+    """ONE process emits n packets in a row (a daemon polling its units for days emits millions): every one of them is
+    decoded by the harness's own V2 decoder (simdev.v2_decode: length field, MD5, AES, padding, id) to the id and frame it
+    was built from; the first and last few and a sample also by the Spec through the driver.  n exceeds 2^16, so any
+    per-process counter squeezed into a two-byte field has wrapped (or overflowed) by the end."""
+    import msmart.lan as lan
+    import simdev
+    frames = [bytes(rng.randrange(256) for _ in range(k)) for k in (0, 1, 15, 16, 33)]
+    ids = [rng.choice(IDS) for _ in range(7)]
+    sample = set(range(5)) | set(range(n - 5, n)) | {255, 256, 65535, 65536, 65537} | {rng.randrange(n) for _ in range(10)}
+    for i in range(n):
+        frame, device_id = frames[i % len(frames)], ids[i % len(ids)]
+        inp = {"nth_packet_of_the_process": i, "id": device_id, "frame": hx(frame)}
+        try:
+            pkt = lan._Packet.encode(device_id, frame)
+        except Exception as e:  # noqa
+            ctx.violate("long_run", inp, lanimpl.canon_exc(e), "a packet", "in-domain frame / id could not be encoded after a long run of the process")
+            break
+        try:
+            got = simdev.v2_decode(pkt)
+        except ValueError as e:
+            got = str(e)
+        if got != (device_id, frame):
+            ctx.violate("long_run", inp, str(got)[:80], "the id and the frame", "independent decoder does not recover the id and frame after a long run of the process")
+            break
+        if i in sample and ctx.driver:
+            dec = ctx.driver.ask(f"spec_v2_decode data={hx(pkt)}")
+            if dec != f"ok id={device_id} frame={hx(frame)}":
+                ctx.violate("long_run", inp, dec[:80], "ok …", "the Spec decoder does not recover the frame after a long run of the process")
+                break
+    ctx.case("long_run", key=n, sample={"packets": n})
+
+
 def run(ctx):
     rng = ctx.rng
+    long_run(ctx, rng, 66000 if ctx.tier == "quick" else 200000)
     for n in range(0, 256):
         for device_id in (IDS if (n % 16 in (0, 1, 15) or ctx.tier == "thorough") else [rng.choice(IDS), rng.randrange(2 ** 64)]):
             one_encode(ctx, "encode", device_id, bytes(rng.randrange(256) for _ in range(n)))
